@@ -313,7 +313,7 @@ Proof. unfold loop_again. destruct (memN 0%N (cancelled s)); reflexivity. Qed.
 Lemma nreq_take_fault s k o s1 : take_fault s k = (o, s1) -> nreq s1 = nreq s.
 Proof. intros E. unfold take_fault in E. destruct k as [|[|[|k]]]; inversion E; subst; reflexivity. Qed.
 
-Lemma InvQ_env calls Q s a s' : InvQ Q s -> step_env calls s a = Some s' -> InvQ (Q_step Q (Env a) s s') s'.
+Lemma InvQ_env calls Q s a s' : InvQ Q s -> step_env fixed calls s a = Some s' -> InvQ (Q_step Q (Env a) s s') s'.
 Proof.
   intros HI H. unfold step_env in H. destruct a as [i|id x e| |n|f arg| |n|c|which n]; simpl Q_step.
   - destruct (tget (threads s) (TCall i)) eqn:Ht; [discriminate|].
@@ -323,7 +323,7 @@ Proof.
     destruct (take_fault s0 2) as [[x|] s1] eqn:E1.
     + inversion H; subst. apply InvQ_caller_panic. eapply InvQ_take_fault; eauto.
     + assert (H1 : InvQ Q s1) by (eapply InvQ_take_fault; eauto).
-      destruct (bclosed s1) eqn:Eb; inversion H; subst; [apply InvQ_caller_panic; auto|].
+      destruct (bclosed s1) eqn:Eb; inversion H; subst; [apply InvQ_caller_return; auto|].
       apply (InvQ_core Q s1); auto; try tauto; try reflexivity.
       intros t Hc. simpl. apply tget_tset_other. intros <-. discriminate.
   - destruct (tget (threads s) TResLoop) as [[]|] eqn:Ht; try discriminate.
